@@ -57,3 +57,28 @@ Proof.
   constructor; [|auto]. rewrite forallb_forall in H1. rewrite Forall_forall. intros e' He'.
   apply disjoint_edges_b_sound. auto.
 Qed.
+
+(** the created bonds do not depend on the order in which the base graph lists its edges *)
+Lemma concat_perm {A} (l l' : list (list A)) : Permutation l l' -> Permutation (concat l) (concat l').
+Proof.
+  induction 1 as [|x l l' _ IH|x y l|l l' l'' _ IH1 _ IH2]; cbn.
+  - constructor.
+  - now apply Permutation_app_head.
+  - rewrite !app_assoc. apply Permutation_app_tail. apply Permutation_app_comm.
+  - now transitivity (concat l').
+Qed.
+
+Theorem forced_fold_order_independent legacy arom : forall ES ES' s s1 b1 s2 b2,
+  Permutation ES ES' -> wf_state s ->
+  Forall (ded_in legacy s) ES -> ForallOrdPairs disjoint_edges ES ->
+  Forall (ded_in legacy s) ES' -> ForallOrdPairs disjoint_edges ES' ->
+  edges_from_bonding legacy arom (map edge_of ES) s [] = Ok (s1, b1) ->
+  edges_from_bonding legacy arom (map edge_of ES') s [] = Ok (s2, b2) ->
+  Permutation (map bond_cp b1) (map bond_cp b2).
+Proof.
+  intros ES ES' s s1 b1 s2 b2 P W D1 O1 D2 O2 R1 R2.
+  destruct (forced_fold legacy arom ES s [] s1 b1 W D1 O1 R1) as [n1 [E1 [P1 _]]].
+  destruct (forced_fold legacy arom ES' s [] s2 b2 W D2 O2 R2) as [n2 [E2 [P2 _]]].
+  cbn in E1, E2. subst b1 b2.
+  rewrite P1. rewrite P2. apply concat_perm. now apply Permutation_map.
+Qed.
